@@ -2,20 +2,70 @@
 package main
 
 import (
+	"encoding/json"
+	"os"
+
 	"verifh/lib"
 	"verifh/luagen"
 	"verifh/luaprop"
 )
 
+// replayExtra re-runs a case of the wave-5 extras (histlimits.go) from a replay file written by the driver.
+func replayExtra() bool {
+	if len(os.Args) < 2 || os.Args[1] != "run" {
+		return false
+	}
+	a := lib.ParseArgs()
+	if a.Replay == "" {
+		return false
+	}
+	b, err := os.ReadFile(a.Replay)
+	if err != nil {
+		return false
+	}
+	var rp struct {
+		Input struct {
+			W5   string  `json:"w5"`
+			Spec *hlSpec `json:"spec"`
+			Name string  `json:"name"`
+		} `json:"input"`
+	}
+	if json.Unmarshal(b, &rp) != nil || rp.Input.W5 == "" {
+		return false
+	}
+	w, err := lib.NewWriter(a.Out, "C06", a.Tier, a.Seed, luaprop.VMHeader, "vcase", 20)
+	if err != nil {
+		panic(err)
+	}
+	w.HasSkip = true
+	w.Meta.Rule = "replay of one Go-side case"
+	switch {
+	case rp.Input.W5 == "hist-limit" && rp.Input.Spec != nil:
+		histLimitCase(w, *rp.Input.Spec)
+	case rp.Input.W5 == "history":
+		historyCases(w, rp.Input.Name)
+	}
+	if err := w.Close(); err != nil {
+		panic(err)
+	}
+	return true
+}
+
 func main() {
+	if replayExtra() {
+		return
+	}
 	f := luagen.CoreFeatures()
 	f.Coroutines, f.Errors, f.Funcs, f.Closures, f.Goto, f.Varargs, f.MultiAssign = 16, 3, 3, 2, 0, 2, 1
 	luaprop.Main(&luaprop.Config{
 		Prop: "C06",
 		Rule: "generated programs dominated by coroutine shapes: create/resume/yield ping-pong with 0..2 payload values each way, wrap generators driving for-in, errors inside coroutines, nested resumes, " +
 			"status/running queried from inside and outside, resuming dead/running/normal coroutines; traces compared with the reference evaluator; non-trivial = at least 5 emitted rows or an error outcome; distinct by Gallina term",
-		Modes:     []luaprop.Mode{{Name: "coroutines", Features: f, Weight: 1}},
-		NQuick:    240,
+		// the second mode runs the same kind of program with per-thread call stacks that grow and shrink in
+		// pooled segments (every coroutine has its own; segments freed by one are reused by the next)
+		Modes: []luaprop.Mode{{Name: "coroutines", Features: f, Weight: 3},
+			{Name: "coroutines-autostack", Features: f, Weight: 1, Run: &luagen.RunOptions{MinimizeStack: true, CallStackSize: 64}}},
+		NQuick:    220,
 		NThorough: 2500,
 		Corpus:    corpus,
 		VM:        true,
